@@ -171,9 +171,13 @@ CLAIMED = {
          'from mnemonic / extended key holds the BIP39-seed master / the given key chain, on every generated network the WIF prefix used for the '
          'hand-over is the one PrivateKey expects, and the key handed back is exactly the derived key (via the WIF round trip of C09). That the real '
          'library behaves like the parameter model and like BIP32/BIP39 (HMAC-SHA512 chain, PBKDF2 seed) is translation-validated each run against '
-         'a full Lean BIP32/BIP39 and by driving the library with and without clean_derivation.',
+         'a full Lean BIP32/BIP39 and by driving the library with and without clean_derivation. Tier T: hdwallet.py itself is re-translated on every run with the '
+         'third-party object as an abstract state and each library method as a parameter (nothing else is accepted in these methods): from_path is clean-then-derive '
+         'for every library, the constructor loads a non-empty mnemonic, and an extended key with its path only when both are given, on the library network chosen from is_mainnet(); '
+         'get_private_key hands the exported WIF to the translated PrivateKey constructor; instantiated with the parameter model these give the reset theorem and the exact hand-over '
+         'for the translated wrapper.',
          NOTE_COMMON + 'third-party hdwallet derivation itself: correspondence only (partial); HMAC-SHA512/PBKDF2 parameters.',
-         'Lean 4 proof (wrapper over parameter model) + differential correspondence against a Lean BIP32/BIP39', '6/C19'),
+         'Lean 4 proof over translated source (wrapper; third-party wallet object as abstract state and parameters) + differential correspondence against a Lean BIP32/BIP39', '6/C19'),
  'C13': ('Kernel-checked theorems on two models. Heap model (Python object identity as references): every object reachable from a copy made by '
          'Transaction/TxInput/TxOutput/TxWitnessInput/Script.copy, and from an input built with the defaulted script_sig, is freshly allocated and '
          'denotes the same value; a write to an object not reachable from a transaction does not change it (frame); mutating anything reachable from '
